@@ -58,6 +58,80 @@ def wf_label(s):
     return all(ord(ch) not in WS and ch not in "+*|>" for ch in s)
 
 
+# ------------------------------------------------------------------ molecule-label codec
+# `species_to_mol` values are documented as "int, str, or other hashable".  The model carries a label as
+# an opaque string, so every label is encoded injectively up to Python `==`: a str as itself (generator
+# strings never start with '~'), numbers by VALUE (0 == 0.0 == numpy.int64(0) -> one model value; bool kept
+# apart), tuples / frozensets structurally.  In a spec (JSON) a non-str label is {"t": type, "v": value}.
+def dec_mol(j):
+    if not isinstance(j, dict):
+        return j
+    t, v = j["t"], j["v"]
+    if t in ("npint", "npfloat"):
+        import numpy as np
+        return np.int64(v) if t == "npint" else np.float64(v)
+    if t == "tuple":
+        return tuple(dec_mol(x) for x in v)
+    if t == "fset":
+        return frozenset(dec_mol(x) for x in v)
+    return {"int": int, "float": float, "bool": bool}[t](v)
+
+
+def enc_mol(m):
+    import numbers
+
+    if isinstance(m, str):
+        return m
+    if m is None:
+        return "~none"
+    if isinstance(m, bool) or type(m).__name__ in ("bool_", "bool"):
+        return "~bool:%s" % bool(m)
+    if isinstance(m, numbers.Integral):
+        return "~num:%d" % int(m)
+    if isinstance(m, numbers.Real):
+        f = float(m)
+        return "~num:%d" % int(f) if f == f and abs(f) != float("inf") and f == int(f) else "~num:%r" % f
+    if isinstance(m, tuple):
+        return "~tuple:" + json.dumps([enc_mol(x) for x in m])
+    if isinstance(m, (set, frozenset)):
+        return "~fset:" + json.dumps(sorted(enc_mol(x) for x in m))
+    if isinstance(m, list):
+        return "~list:" + json.dumps([enc_mol(x) for x in m])
+    return "~py:%s:%r" % (type(m).__name__, m)
+
+
+def apply_op(H, op):
+    """Network reached through the public API after earlier calls (hidden-state streams): the model only
+    ever sees the network that results (`net_of_H`), never the history."""
+    from synkit.CRN.Hypergraph import conversion as cv
+
+    k = op[0]
+    if k == "export":  # every exporter / importer has already been used on this object
+        G = cv.hypergraph_to_bipartite(H, include_edge_id_attr=True, include_mol=True, integer_ids=bool(op[1]) if len(op) > 1 else False)
+        cv.bipartite_to_hypergraph(G)
+        S = cv.hypergraph_to_species_graph(H, include_mol=True)
+        cv.species_graph_to_hypergraph(S)
+        cv.rxns_to_hypergraph(cv.hypergraph_to_rxn_strings(H, include_edge_id=True))
+    elif k == "copy":
+        H = H.copy()
+    elif k == "remove_rxn":
+        if len(H.edges) > 1:
+            H.remove_rxn(list(H.edges)[op[1] % len(H.edges)])
+    elif k == "add":
+        r = op[1]
+        if r["id"] is None or r["id"] not in H.edges:
+            H.add_rxn(dict((s, c) for s, c in r["r"]), dict((s, c) for s, c in r["p"]), rule=r["rule"], edge_id=r["id"])
+    elif k == "remove_species":
+        if op[1] in H.species and any(set(e.species()) - {op[1]} for e in H.edges.values()):
+            H.remove_species(op[1])
+    elif k == "assign_mol":
+        if op[1] in H.species:
+            H.assign_mol(op[1], dec_mol(op[2]))
+    elif k == "roundtrip":  # the object under test is itself the result of an earlier round trip
+        H = cv.bipartite_to_hypergraph(cv.hypergraph_to_bipartite(H, include_edge_id_attr=True, include_mol=True, integer_ids=bool(op[1])))
+    return H
+
+
 # ------------------------------------------------------------------ implementation adapter
 def build_H(spec):
     """spec: {"rxns": [{"id": str|None, "rule": str|None, "r": [[s,c]..], "p": [[s,c]..]}],
@@ -74,9 +148,14 @@ def build_H(spec):
         H.add_rxn({s: 1}, {}, rule="tmp", edge_id=tmp)
         H.remove_species(s, prune_orphans=False)  # the emptied reaction is removed, the species is kept
         assert tmp not in H.edges and s in H.species
-    for s, m in spec.get("mol", []):
-        if s in H.species:
-            H.assign_mol(s, m)
+    if spec.get("mol_via") == "map":
+        H.set_mol_map({s: dec_mol(m) for s, m in spec.get("mol", []) if s in H.species})
+    else:
+        for s, m in spec.get("mol", []):
+            if s in H.species:
+                H.assign_mol(s, dec_mol(m))
+    for op in spec.get("ops", []):
+        H = apply_op(H, op)
     # malformed stream only: a coefficient forced to 0 behind the API's back (exercises the
     # importers' normalisation and their ValueError branch)
     for i, side, sp in spec.get("poke", []):
@@ -93,7 +172,7 @@ def net_of_H(H):
         "species": list(H.species),
         "rxns": [{"id": k, "rule": e.rule, "r": [[s, int(c)] for s, c in e.reactants.items()],
                   "p": [[s, int(c)] for s, c in e.products.items()]} for k, e in H.edges.items()],
-        "mol": [[s, str(m)] for s, m in H.species_to_mol.items()],
+        "mol": [[s, enc_mol(m)] for s, m in H.species_to_mol.items()],
     }
 
 
@@ -104,7 +183,7 @@ def canon_net(H):
         "rxns": sorted(({"id": k, "rule": e.rule, "r": sorted([s, int(c)] for s, c in e.reactants.items()),
                          "p": sorted([s, int(c)] for s, c in e.products.items())} for k, e in H.edges.items()),
                        key=lambda r: r["id"]),
-        "mol": sorted([s, str(m)] for s, m in H.species_to_mol.items()),
+        "mol": sorted([s, enc_mol(m)] for s, m in H.species_to_mol.items()),
     }
     if bad:
         d["id_field_mismatch"] = bad
@@ -125,14 +204,14 @@ def nid_key(n):
 
 
 def canon_bgraph(G):
-    nodes = sorted(({"id": n, **{k: (str(v) if k == "mol" else v) for k, v in d.items()}} for n, d in G.nodes(data=True)),
+    nodes = sorted(({"id": n, **{k: (enc_mol(v) if k == "mol" else v) for k, v in d.items()}} for n, d in G.nodes(data=True)),
                    key=lambda d: nid_key(d["id"]))
     edges = sorted(({"u": u, "v": v, **d} for u, v, d in G.edges(data=True)), key=lambda d: (nid_key(d["u"]), nid_key(d["v"])))
     return {"nodes": nodes, "edges": edges}
 
 
 def canon_sgraph(G):
-    nodes = sorted(({"id": n, **{k: (str(v) if k == "mol" else v) for k, v in d.items()}} for n, d in G.nodes(data=True)),
+    nodes = sorted(({"id": n, **{k: (enc_mol(v) if k == "mol" else v) for k, v in d.items()}} for n, d in G.nodes(data=True)),
                    key=lambda d: d["id"])
     edges = []
     for u, v, d in G.edges(data=True):
@@ -161,25 +240,68 @@ def flags_kwargs(f):
                 integer_ids=f["int"], include_edge_id_attr=f["eid"], include_mol=f["mol"])
 
 
-def impl_bip(H, f):
+def impl_bip(H, f, twice=False):
     from synkit.CRN.Hypergraph import conversion as cv
 
     G = cv.hypergraph_to_bipartite(H, **flags_kwargs(f))
-    return {"graph": canon_bgraph(G), "re": guarded(lambda: cv.bipartite_to_hypergraph(G))}
+    before = canon_bgraph(G)
+    res = {"graph": before, "re": guarded(lambda: cv.bipartite_to_hypergraph(G))}
+    if twice:  # same query repeated: second import of the same graph, second export of the same network
+        G2 = cv.hypergraph_to_bipartite(H, **flags_kwargs(f))
+        rep = {"graph_after_import": canon_bgraph(G), "second_export": canon_bgraph(G2),
+               "second_import": guarded(lambda: cv.bipartite_to_hypergraph(G)), "import_of_second_export": guarded(lambda: cv.bipartite_to_hypergraph(G2))}
+        bad = {k: v for k, v in rep.items() if v != (before if k in ("graph_after_import", "second_export") else res["re"])}
+        if bad:
+            res["unstable"] = bad
+    return res
 
 
-def impl_species(H, mol):
+def impl_species(H, mol, twice=False):
     from synkit.CRN.Hypergraph import conversion as cv
 
     G = cv.hypergraph_to_species_graph(H, include_mol=mol)
-    return {"graph": canon_sgraph(G), "re": guarded(lambda: cv.species_graph_to_hypergraph(G))}
+    before = canon_sgraph(G)
+    res = {"graph": before, "re": guarded(lambda: cv.species_graph_to_hypergraph(G))}
+    if twice:
+        G2 = cv.hypergraph_to_species_graph(H, include_mol=mol)
+        strip = lambda r: ({"ok": {**r["ok"], "rxns": [{**x, "rule": None} for x in r["ok"]["rxns"]]}} if "ok" in r else r)  # noqa: E731 (rule choice is free)
+        rep = {"graph_after_import": canon_sgraph(G), "second_export": canon_sgraph(G2)}
+        rep2 = {"second_import": guarded(lambda: cv.species_graph_to_hypergraph(G)), "import_of_second_export": guarded(lambda: cv.species_graph_to_hypergraph(G2))}
+        bad = {k: v for k, v in rep.items() if v != before}
+        bad.update({k: v for k, v in rep2.items() if strip(v) != strip(res["re"])})
+        if bad:
+            res["unstable"] = bad
+    return res
 
 
-def impl_strings(H, f):
+def one_shot(lines, how):
+    """The documented `Iterable[str]` handed over as a list, a tuple, or a one-shot iterator / generator / map."""
+    if how == "tuple":
+        return tuple(lines)
+    if how == "iter":
+        return iter(list(lines))
+    if how == "gen":
+        return (l for l in list(lines))
+    if how == "map":
+        return map(lambda x: x, list(lines))
+    return lines
+
+
+def impl_strings(H, f, twice=False, how="list"):
     from synkit.CRN.Hypergraph import conversion as cv
 
-    lines = cv.hypergraph_to_rxn_strings(H, include_rule_suffix=f["rule"], include_edge_id=f["id"], sort=f["sort"])
-    return {"lines": list(lines), "re": guarded(lambda: cv.rxns_to_hypergraph(lines))}
+    kw = dict(include_rule_suffix=f["rule"], include_edge_id=f["id"], sort=f["sort"])
+    lines = cv.hypergraph_to_rxn_strings(H, **kw)
+    res = {"lines": list(lines), "re": guarded(lambda: cv.rxns_to_hypergraph(one_shot(lines, how)))}
+    if twice:
+        rep = {"lines_after_parse": list(lines), "second_print": list(cv.hypergraph_to_rxn_strings(H, **kw))}
+        bad = {k: v for k, v in rep.items() if v != res["lines"]}
+        again = guarded(lambda: cv.rxns_to_hypergraph(list(res["lines"])))
+        if strip_ids(again) != strip_ids(res["re"]):
+            bad["second_parse"] = again
+        if bad:
+            res["unstable"] = bad
+    return res
 
 
 # ------------------------------------------------------------------ comparison helpers
@@ -284,9 +406,17 @@ def evaluate(ctx, specs, flagsets, tag, count=True):
         probs = []
         mb, ms0, ms1, mstr = reps[4 * i:4 * i + 4]
         pos = positive(orig)
+        twice = bool(spec.get("twice"))
+        hows = spec.get("line_containers") or ["list"]
+
+        def unstable(im, view, flag):
+            if "unstable" in im:
+                probs.append(Problem(view=view, flag=flag, kind="diverge",
+                                     detail={"what": "the same query repeated on the same object gives another answer (or the call changed its argument)", "differs": im["unstable"]}))
         # ---- bipartite
         for f, m in zip(fl, mb):
-            im = impl_bip(H, f)
+            im = impl_bip(H, f, twice)
+            unstable(im, "bip", f)
             a, b = im["re"], m["re"]
             if not f["eid"]:
                 if not gen_ids_wellformed(a, lambda rule: re.escape(rule) + r"_\d{1,8}"):
@@ -312,7 +442,8 @@ def evaluate(ctx, specs, flagsets, tag, count=True):
                                      detail={"what": "re-imported network differs from the original", "impl": im["re"], "original": orig}))
         # ---- species graph
         for mol, m in ((False, ms0), (True, ms1)):
-            im = impl_species(H, mol)
+            im = impl_species(H, mol, twice)
+            unstable(im, "species", {"mol": mol})
             cands = {k: v for k, v in m["rules"]}
 
             def norules(res):
@@ -340,8 +471,9 @@ def evaluate(ctx, specs, flagsets, tag, count=True):
                                          detail={"what": "ids / stoichiometry not reproduced", "impl": im["re"], "original": orig}))
         # ---- strings
         lw, rw = labels_wf(orig) and pos, rules_wf(orig)
-        for f, m in zip(STR_FLAGS, mstr):
-            im = impl_strings(H, f)
+        for j, (f, m) in enumerate(zip(STR_FLAGS, mstr)):
+            im = impl_strings(H, f, twice, hows[j % len(hows)])
+            unstable(im, "strings", f)
             if sorted(im["lines"]) != sorted(m["lines"]):
                 probs.append(Problem(view="strings", flag=f, kind="diverge", detail={"what": "printed lines", "impl": im["lines"], "model": m["lines"]}))
             elif strip_ids(im["re"]) != strip_ids(m["re"]):
@@ -356,6 +488,10 @@ def evaluate(ctx, specs, flagsets, tag, count=True):
                 if got != sorted_contents(orig):
                     probs.append(Problem(view="strings", flag=f, kind="spec",
                                          detail={"what": "multiset of (rule, reactants, products) not reproduced", "impl": im["re"], "lines": im["lines"], "original": orig}))
+        # no exporter / importer may change the network it was given (hidden state between calls)
+        if canon_net(H) != orig or net_of_H(H) != net:
+            probs.append(Problem(view="state", flag={}, kind="diverge",
+                                 detail={"what": "the network object changed while its views were exported / imported", "before": orig, "after": canon_net(H)}))
         out.append(probs)
     return out
 
@@ -383,10 +519,16 @@ def shrink_spec(ctx, spec, pred):
             return False
     rx = shrink_seq(spec["rxns"], lambda c: safe(with_rxns(c)), budget=120)
     spec = with_rxns(rx)
-    for key in ("isolated", "mol"):
+    for key in ("isolated", "mol", "ops"):
         cand = {**spec, key: []}
         if spec.get(key) and safe(cand):
             spec = cand
+    if len(spec.get("mol") or []) > 1:
+        base = spec
+        spec = {**spec, "mol": shrink_seq(spec["mol"], lambda c: safe({**base, "mol": c}), budget=30)}
+    if len(spec.get("ops") or []) > 1:
+        base = spec
+        spec = {**spec, "ops": shrink_seq(spec["ops"], lambda c: safe({**base, "ops": c}), budget=20)}
     changed = True
     n = 0
     while changed and n < 60:
@@ -506,14 +648,40 @@ IDS = ["r_1", "r_2", "r_3", "R1_1", "R1_2", "r_10", "x", "e1", "A", "B", "R1_7"]
 MOLS = ["CCO", "O", "[Fe+2]", "C1=CC=CC=C1", "m 1"]
 
 
-def random_spec(rnd, pool, nsp_max=8, nrx_max=10, explicit_ids=True):
-    nsp = rnd.randint(1, nsp_max)
+MOL_FALSY = [{"t": "int", "v": 0}, {"t": "float", "v": 0.0}, "", {"t": "tuple", "v": []}, {"t": "bool", "v": False}, {"t": "fset", "v": []},
+             {"t": "npint", "v": 0}, {"t": "npfloat", "v": 0.0}]
+MOL_TRUTHY = [{"t": "int", "v": 1}, {"t": "float", "v": 1.0}, {"t": "npint", "v": 1}, {"t": "npfloat", "v": 1.0}, {"t": "int", "v": 2}, {"t": "int", "v": 12},
+              {"t": "int", "v": 10 ** 9}, {"t": "float", "v": 2.5}, {"t": "int", "v": -1}, {"t": "tuple", "v": ["C", "O"]}, {"t": "tuple", "v": [{"t": "int", "v": 0}]},
+              {"t": "tuple", "v": [{"t": "int", "v": 1}, {"t": "float", "v": 2.0}]}, {"t": "bool", "v": True}, {"t": "fset", "v": ["C"]},
+              "0", "1", "False", "None", " ", "CCO", "O"]
+NUM_TYPES = ["int", "int", "float", "npint", "npfloat"]
+BIG_COEFFS = [1, 1, 2, 3, 10, 12, 50, 99, 100, 2500, 65536, 10 ** 6, 123456789, 10 ** 12]
+IDS_WIDE = ["", "0", "00", "r_0", "r_100", "R1_12345678", "r_1", "r_2", "R1_1", "x", "A", "7", "e 1", "id=3"]
+
+
+def typed_mols(rnd, species):
+    """Molecule labels of every documented shape: 0-/1-based integer indices (written as int, float or numpy
+    numbers, mixed within one network), falsy values (0, 0.0, '', (), False, frozenset()), strings that print
+    like numbers, tuples; most species labelled."""
+    c = rnd.random()
+    sp = sorted(species)
+    if c < 0.4:  # indices into an external molecule table
+        base = 0 if c < 0.3 else 1
+        uniform = rnd.choice(NUM_TYPES) if rnd.random() < 0.5 else None
+        return [[s, {"t": uniform or rnd.choice(NUM_TYPES), "v": base + i}] for i, s in enumerate(sp) if rnd.random() < 0.9]
+    if c < 0.55:
+        return [[s, rnd.choice(["", "0", "1", " ", "False", "CCO", "O", "[Fe+2]"])] for s in sp if rnd.random() < 0.8]
+    return [[s, rnd.choice(MOL_FALSY) if rnd.random() < 0.45 else rnd.choice(MOL_TRUTHY)] for s in sp if rnd.random() < 0.75]
+
+
+def random_spec(rnd, pool, nsp_max=8, nrx_max=10, explicit_ids=True, coeffs=None, ids=None, nsp_min=1, nrx_min=1, mols=False):
+    nsp = rnd.randint(nsp_min, nsp_max)
     sp = rnd.sample(pool, min(nsp, len(pool)))
-    nrx = rnd.randint(1, nrx_max)
+    nrx = rnd.randint(nrx_min, nrx_max)
     rxns, used = [], set()
 
     def coeff():
-        return rnd.choice([1, 1, 1, 2, 2, 3, 10, 12, 100])
+        return rnd.choice(coeffs or [1, 1, 1, 2, 2, 3, 10, 12, 100])
 
     def side(kmax=3):
         k = rnd.choice([0, 1, 1, 1, 2, 2, 3][:4 + kmax])
@@ -546,7 +714,7 @@ def random_spec(rnd, pool, nsp_max=8, nrx_max=10, explicit_ids=True):
             continue
         eid = None
         if explicit_ids and rnd.random() < 0.35:
-            eid = rnd.choice(IDS)
+            eid = rnd.choice(ids or IDS)
             if eid in used:
                 eid = None
         rule = rnd.choice(RULES)
@@ -555,13 +723,47 @@ def random_spec(rnd, pool, nsp_max=8, nrx_max=10, explicit_ids=True):
     spec = {"rxns": rxns,
             "isolated": [s for s in ["Z", "Q2"] if rnd.random() < 0.2],
             "mol": [[s, rnd.choice(MOLS)] for s in sp + ["Z"] if rnd.random() < 0.4]}
+    if mols:
+        spec["mol"] = typed_mols(rnd, sp + ["Z"])
+        if rnd.random() < 0.4:
+            spec["mol_via"] = "map"
     return spec
+
+
+def mol_flag_sets(rnd):
+    """8 of the 64 flag combinations (6 of them with include_mol forced on) + the prefix variants."""
+    out = bip_flag_sets(rnd, True, False)
+    for f in out[:6]:
+        f["mol"] = True
+    return out
+
+
+def random_ops(rnd, spec):
+    """1-4 public-API calls made on the object before it is queried (see apply_op)."""
+    sp = sorted({s for r in spec["rxns"] for s, _ in r["r"] + r["p"]})
+    ops = []
+    for _ in range(rnd.randint(1, 4)):
+        c = rnd.random()
+        if c < 0.30:
+            ops.append(["export", rnd.random() < 0.5])
+        elif c < 0.42:
+            ops.append(["copy"])
+        elif c < 0.57:
+            ops.append(["remove_rxn", rnd.randrange(10)])
+        elif c < 0.75:
+            ops.append(["add", random_spec(rnd, sp + ["Nw"], nsp_max=3, nrx_max=1, explicit_ids=False)["rxns"][0]])
+        elif c < 0.85:
+            ops.append(["remove_species", rnd.choice(sp)])
+        elif c < 0.93:
+            ops.append(["assign_mol", rnd.choice(sp), rnd.choice(MOL_FALSY + MOL_TRUTHY)])
+        else:
+            ops.append(["roundtrip", rnd.random() < 0.5])
+    return ops
 
 
 def buildable(spec):
     try:
-        build_H(spec)
-        return True
+        return bool(build_H(spec).edges)
     except KeyError:
         return False
 
@@ -699,7 +901,34 @@ def random_bip_transform(rnd, f):
     t["imp_sp"] = (f["sp"] or "") if same else rnd.choice(["S:", "R:", "sp/", "", "x"])
     t["imp_rp"] = (f["rp"] or "") if same else rnd.choice(["R:", "S:", "rx/", "", "x"])
     t["default_rule"] = rnd.choice(["r", "r", "dflt", "R1"])
+    t["numtype"] = rnd.choice(["int", "int", "float", "np", "mixed"])
+    t["extra"] = rnd.random() < 0.3
     return t
+
+
+def retype(v, mode, i):
+    """The same number written another way (a graph that went through GraphML / pandas / numpy): == to `v`."""
+    import numpy as np
+
+    if mode == "mixed":
+        mode = ["int", "float", "np", "npfloat"][i % 4]
+    return {"int": int, "float": float, "np": np.int64, "npfloat": np.float64}[mode](v)
+
+
+NODE_EXTRAS = {"weight": 1.5, "id": 7, "capacity": 0, "title": "", "color": "red"}
+EDGE_EXTRAS = {"weight": 3, "label": "x", "id": "r_1", "name": "A", "capacity": 0, "mol": "CCO"}
+
+
+def add_extras(G, t):
+    """Attributes the importer does not select (names a library default might pick up); the model never sees them."""
+    for i, n in enumerate(sorted(G.nodes, key=nid_key)):
+        for j, (k, v) in enumerate(NODE_EXTRAS.items()):
+            if hit(t["mask"], i + j) and k not in G.nodes[n]:
+                G.nodes[n][k] = v
+    for i, (u, v) in enumerate(sorted(G.edges, key=lambda e: (nid_key(e[0]), nid_key(e[1])))):
+        for j, (k, val) in enumerate(EDGE_EXTRAS.items()):
+            if hit(t["mask"], i + 2 * j) and k not in G.edges[u, v]:
+                G.edges[u, v][k] = val
 
 
 def apply_bip_transform(G, t):
@@ -730,10 +959,13 @@ def apply_bip_transform(G, t):
     for i, (u, v) in enumerate(sorted(G.edges, key=lambda e: (nid_key(e[0]), nid_key(e[1])))):
         d = G.edges[u, v]
         if "stoich" in d:
+            d["stoich"] = retype(d["stoich"], t.get("numtype", "int"), i)
             if t["stoich"] == "strip" or (t["stoich"] == "some" and hit(t["mask"], i + 1)):
                 d.pop("stoich")
             elif t["stoich"] in ("rename", "rename_nopass"):
                 d["n"] = d.pop("stoich")
+    if t.get("extra"):
+        add_extras(G, t)
     if t["sp_label"] == "rename":
         kw["species_label_attr"] = "name"
     if t["rx_label"] == "rename":
@@ -754,8 +986,8 @@ def raw_bgraph(G, kw):
     sla, rla = kw.get("species_label_attr", "label"), kw.get("reaction_label_attr", "label")
     eia, sa, ma = kw.get("reaction_edge_id_attr", "edge_id"), kw.get("stoich_attr", "stoich"), kw.get("mol_attr", "mol")
     nodes = [{"id": n, "kind": d.get("kind"), "sp_label": d.get(sla), "rx_label": d.get(rla), "edge_id": d.get(eia),
-              "mol": (str(d[ma]) if ma is not None and ma in d else None)} for n, d in G.nodes(data=True)]
-    edges = [{"u": u, "v": v, "stoich": d.get(sa)} for u, v, d in G.edges(data=True)]
+              "mol": (enc_mol(d[ma]) if ma is not None and ma in d else None)} for n, d in G.nodes(data=True)]
+    edges = [{"u": u, "v": v, "stoich": (int(d[sa]) if d.get(sa) is not None else None)} for u, v, d in G.edges(data=True)]
     return {"cmd": "views.bip_raw", "graph": {"nodes": nodes, "edges": edges}, "sp": kw["species_prefix"], "rp": kw["reaction_prefix"],
             "default_rule": kw["default_rule"], "mol": ma is not None}
 
@@ -820,6 +1052,7 @@ def eval_bip_raw(ctx, items, tag, count=True):
                 ctx.count("bip_raw:%s=%s" % (k, t[k]))
             ctx.count("bip_raw:importer prefixes " + ("as exported" if (t["imp_sp"], t["imp_rp"]) == (f["sp"] or "", f["rp"] or "") else "other"))
             ctx.count("bip_raw:ids " + ("int" if f["int"] else "str"))
+            ctx.count("bip_raw:stoich written as " + t.get("numtype", "int")), ctx.count("bip_raw:unselected extra attributes=%s" % bool(t.get("extra")))
         if claim:
             want, with_ids = claim
             want, got = {"ok": want}, im
@@ -853,6 +1086,8 @@ def random_sp_transform(rnd):
         t[k] = rnd.choice(SP_RAW_MODES[k])
     t["mask"] = [rnd.random() < 0.5 for _ in range(7)]
     t["default_rule"] = rnd.choice(["r", "r", "dflt", "R1"])
+    t["numtype"] = rnd.choice(["int", "int", "float", "np", "mixed"])
+    t["extra"] = rnd.random() < 0.3
     return t
 
 
@@ -872,6 +1107,11 @@ def apply_sp_transform(G0, t):
             d["smiles"] = d.pop("mol")
     for i, (u, v, d) in enumerate(sorted(G.edges(data=True), key=lambda e: (e[0], e[1]))):
         via, rules = sorted(d["via"]), sorted(d["rules"])
+        nt = t.get("numtype", "int")
+        if nt != "int":
+            d["stoich_r"], d["stoich_p"] = retype(d["stoich_r"], nt, i), retype(d["stoich_p"], nt, i + 1)
+            d["stoich_r_map"] = {k: retype(c, nt, i + j) for j, (k, c) in enumerate(d["stoich_r_map"].items())}
+            d["stoich_p_map"] = {k: retype(c, nt, i + j + 1) for j, (k, c) in enumerate(d["stoich_p_map"].items())}
         if t["via"] == "strip" or (t["via"] == "some" and hit(t["mask"], i)):
             d.pop("via")
         elif t["via"] == "list":
@@ -891,6 +1131,15 @@ def apply_sp_transform(G0, t):
             d.pop("stoich_p_map")
         if t["legacy"] == "strip":
             d.pop("stoich_r"), d.pop("stoich_p")
+    if t.get("extra"):
+        for i, n in enumerate(list(G.nodes)):
+            for j, (k, v) in enumerate(NODE_EXTRAS.items()):
+                if hit(t["mask"], i + j) and k not in G.nodes[n]:
+                    G.nodes[n][k] = v
+        for i, (u, v, d) in enumerate(sorted(G.edges(data=True), key=lambda e: (e[0], e[1]))):
+            for j, (k, val) in enumerate(EDGE_EXTRAS.items()):
+                if hit(t["mask"], i + 2 * j) and k not in d:
+                    d[k] = val
     if t["relabel"] != "keep":
         order = list(G.nodes)
         mp = {n: (i + 1 if t["relabel"] == "int" else "n%d" % (len(order) - i)) for i, n in enumerate(order)}
@@ -906,7 +1155,7 @@ def apply_sp_transform(G0, t):
 
 def raw_sgraph(G, kw):
     la, ma = kw.get("species_label_attr", "label"), kw.get("mol_attr", "mol")
-    nodes = [{"id": str(n), "label": d.get(la), "mol": (str(d[ma]) if ma is not None and ma in d else None)} for n, d in G.nodes(data=True)]
+    nodes = [{"id": str(n), "label": d.get(la), "mol": (enc_mol(d[ma]) if ma is not None and ma in d else None)} for n, d in G.nodes(data=True)]
     edges = []
     for u, v, d in G.edges(data=True):
         via, rules = d.get("via"), d.get("rules")
@@ -914,7 +1163,8 @@ def raw_sgraph(G, kw):
         edges.append({"u": str(u), "v": str(v),
                       "via": (list(via) if isinstance(via, (set, list, tuple)) else via),
                       "rules": (list(rules) if isinstance(rules, set) else rules),
-                      "stoich_r": d.get("stoich_r"), "stoich_p": d.get("stoich_p"),
+                      "stoich_r": (int(d["stoich_r"]) if d.get("stoich_r") is not None else None),
+                      "stoich_p": (int(d["stoich_p"]) if d.get("stoich_p") is not None else None),
                       "r_map": ([[k, int(c)] for k, c in rm.items()] if isinstance(rm, dict) else None),
                       "p_map": ([[k, int(c)] for k, c in pm.items()] if isinstance(pm, dict) else None)})
     return {"cmd": "views.species_raw", "graph": {"nodes": nodes, "edges": edges}, "default_rule": kw["default_rule"], "mol": ma is not None}
@@ -980,6 +1230,7 @@ def eval_sp_raw(ctx, items, tag, count=True):
             ctx.count("species_raw:re:" + ("ok" if "ok" in im else im["err"]))
             for k in SP_RAW_MODES:
                 ctx.count("species_raw:%s=%s" % (k, t[k]))
+            ctx.count("species_raw:coefficients written as " + t.get("numtype", "int")), ctx.count("species_raw:unselected extra attributes=%s" % bool(t.get("extra")))
         if claim:
             want = [[r["id"], r["r"], r["p"]] for r in orig["rxns"]]
             got = [[r["id"], r["r"], r["p"]] for r in im["ok"]["rxns"]] if "ok" in im else im
@@ -996,7 +1247,8 @@ ITEM_FORMS = ["tuples", "tuples", "mapping", "rules", "rules", "rules_short", "m
 def random_items_case(rnd, quick=True):
     return {"str": rnd.choice(STR_FLAGS), "form": rnd.choice(ITEM_FORMS), "rules": rnd.choice(["true", "true", "true", "other", "none", "mix"]),
             "suffix": rnd.random() < 0.8, "prefer": rnd.random() < 0.5, "default_rule": rnd.choice(["r", "dflt"]),
-            "via_conversion": rnd.random() < 0.5, "mask": [rnd.random() < 0.5 for _ in range(5)]}
+            "via_conversion": rnd.random() < 0.5, "mask": [rnd.random() < 0.5 for _ in range(5)],
+            "container": rnd.choice(["list", "list", "tuple", "iter", "gen", "map"])}
 
 
 def items_of(lines, true_rules, t):
@@ -1061,6 +1313,13 @@ def eval_items(ctx, items, tag, count=True):
         probs = []
         orig = canon_net(H)
         kw = dict(default_rule=t["default_rule"], parse_rule_from_suffix=t["suffix"], prefer_suffix=t["prefer"])
+        how = t.get("container", "list")
+        if not isinstance(arg, dict):  # the documented Iterable: also a tuple / one-shot iterator / generator / map object
+            arg = one_shot(arg, how)
+            if rules is not None and how == "tuple":
+                rules = tuple(rules)
+        if count:
+            ctx.count("items:container=" + ("mapping" if isinstance(arg, dict) else how))
         if rules is None and t["via_conversion"]:
             im = any_guarded(lambda: cv.rxns_to_hypergraph(arg, **kw))
         else:
@@ -1164,6 +1423,17 @@ def raw_streams(ctx):
              "eid": eid or rnd.random() < 0.4, "mol": mol or rnd.random() < 0.4}
         for _ in range(2):
             items.append((spec, {"f": f, "t": random_bip_transform(rnd, f)}))
+    # + networks with molecule labels of every documented shape (ints from 0, falsy values, numpy numbers, tuples), mol exported
+    extra_n = n // 5
+    while len(items) < n + extra_n:
+        spec = random_spec(rnd, WF_POOL, nsp_max=6, nrx_max=5, mols=True, ids=IDS_WIDE if rnd.random() < 0.3 else None)
+        if not buildable(spec):
+            continue
+        f = {"sp": "S:", "rp": "R:", "bip": [0, 1], "stoich": True, "role": rnd.random() < 0.5, "isolated": rnd.random() < 0.5, "int": rnd.random() < 0.4,
+             "eid": rnd.random() < 0.8, "mol": True}
+        t = random_bip_transform(rnd, f)
+        t["mol"] = rnd.choice(["keep", "keep", "rename", "rename_nopass", "none"])
+        items.append((spec, {"f": f, "t": t}))
     if len(unclassified(ctx)) < 8:
         run_raw(ctx, "bip_raw", items, "bip-importer-raw")
     # (2) species-graph importer
@@ -1177,6 +1447,15 @@ def raw_streams(ctx):
             continue
         for _ in range(2):
             items.append((spec, {"mol": rnd.random() < 0.5, "t": random_sp_transform(rnd)}))
+    extra_n = n // 5
+    while len(items) < n + extra_n:
+        spec = random_spec(rnd, WF_POOL, nsp_max=6, nrx_max=5, mols=True, ids=IDS_WIDE if rnd.random() < 0.3 else None)
+        spec["rxns"] = [r for r in spec["rxns"] if r["r"] and r["p"]]
+        if not spec["rxns"] or not buildable(spec):
+            continue
+        t = random_sp_transform(rnd)
+        t["mol"] = rnd.choice(["keep", "keep", "rename", "rename_nopass", "none"])
+        items.append((spec, {"mol": True, "t": t}))
     if len(unclassified(ctx)) < 8:
         run_raw(ctx, "species_raw", items, "species-importer-raw")
     # (3) parse_rxns input forms
@@ -1211,6 +1490,51 @@ def run_item_lines(ctx, cases):
                           {"kind": "item_lines", "items": it, "suffix": sfx, "prefer": pre, "default_rule": dr}, {"impl": im, "model": m}, no_input=True)
             if len(unclassified(ctx)) >= 8:
                 return
+
+
+def rep_streams(ctx):
+    rnd = ctx.rnd
+    # (a) molecule labels of every documented shape ("int, str, or other hashable"): indices from 0, falsy values,
+    #     the same number written as int / float / numpy scalar within one network, tuples, strings printing like numbers
+    fixed = {"rxns": [{"id": None, "rule": "R1", "r": [["A", 2], ["E", 1]], "p": [["B", 1], ["E", 1]]}, {"id": None, "rule": "R2", "r": [["B", 12]], "p": [["C", 3]]},
+                      {"id": None, "rule": "R3", "r": [], "p": [["A", 1]]}], "isolated": [], "mol": []}
+    items = []
+    for ty in ("int", "float", "npint"):
+        for base in (0, 1):
+            items.append(({**fixed, "mol": [[s, {"t": ty, "v": base + i}] for i, s in enumerate("ABCE")]}, mol_flag_sets(rnd)))
+    for m in MOL_FALSY + MOL_TRUTHY:
+        items.append(({**fixed, "mol": [["A", m], ["B", "CCO"]], "mol_via": "map"}, mol_flag_sets(rnd)))
+    n = len(items) + (150 if ctx.quick else 2500)
+    while len(items) < n:
+        spec = random_spec(rnd, WF_POOL, nsp_max=6, nrx_max=5, mols=True)
+        if buildable(spec):
+            items.append((spec, mol_flag_sets(rnd)))
+    run_nets(ctx, items, "mol-label-shapes")
+    # (b) scale: one more species / reaction than the random tier reaches and beyond, coefficients far outside the small
+    #     alphabet (ratios like 1:50:2500, 10**12), ids that are falsy / numeric / multi-digit / contain a blank
+    items = []
+    while len(items) < (60 if ctx.quick else 900):
+        big = rnd.random() < 0.6
+        spec = random_spec(rnd, WF_POOL, nsp_max=13 if big else 6, nrx_max=14 if big else 5, nsp_min=9 if big else 1, nrx_min=11 if big else 1,
+                           coeffs=BIG_COEFFS, ids=IDS_WIDE, mols=rnd.random() < 0.5)
+        if buildable(spec):
+            items.append((spec, mol_flag_sets(rnd)))
+    if len(unclassified(ctx)) < 8:
+        run_nets(ctx, items, "scale-and-wide-ids")
+    # (c) history: the object was exported / imported / copied / edited through the public API before it is queried; every
+    #     query is made twice (second export, second import of the same graph); reaction strings handed over as one-shot iterables
+    items = []
+    while len(items) < (110 if ctx.quick else 1800):
+        spec = random_spec(rnd, WF_POOL, nsp_max=6, nrx_max=5, mols=rnd.random() < 0.5)
+        if not buildable(spec):
+            continue
+        spec["ops"] = random_ops(rnd, spec)
+        spec["twice"] = True
+        spec["line_containers"] = [rnd.choice(["list", "tuple", "iter", "gen", "map"]) for _ in range(3)]
+        if buildable(spec):
+            items.append((spec, mol_flag_sets(rnd)))
+    if len(unclassified(ctx)) < 8:
+        run_nets(ctx, items, "history-and-repeated-queries")
 
 
 def check_raw_ties(ctx, specs):
@@ -1258,6 +1582,8 @@ def run(ctx):
         "Lean 4.33 kernel; axioms of the property theorems as listed in obligation_list",
         "hand-written model SynKitModel/Views.lean tied to /repo by this correspondence run (not by translation)",
         "Driver/Views.lean JSON codec, harness/props/c16.py adapter + canonicalisation (node/arc lists, attribute dicts, sets sorted)",
+        "molecule labels are opaque to the model: the adapter encodes each label injectively up to Python == (enc_mol: str as itself, numbers by value so 0 == 0.0 == numpy.int64(0), "
+        "bool / tuple / frozenset tagged); numeric attribute values of degraded graphs travel as int(value)",
         "NetworkX DiGraph semantics (insertion-ordered nodes/arcs, add_node/add_edge update in place) as modelled; Python hash() is a parameter of the model "
         "(ids regenerated from it are compared by shape only)",
         "modelled outside the theorems (SynKitModel/ViewsRaw.lean, tied to Views.lean on exported graphs by the raw_tie obligation): the prefix / degree heuristics of "
@@ -1282,14 +1608,22 @@ def run(ctx):
                     "RANDOM networks (<=8 species, <=10 reactions; catalysts, repeated reactions, source/sink, coefficients up to 100, reactions sharing a species pair, "
                     "labels like Fe2/H2O/A_1/Zn(OH)2, rules from a small alphabet, explicit ids that look generated, species without reactions, molecule labels) with ALL 64 flag "
                     "combinations + 3 prefix variants + the _as_bipartite/_CRNGraphBackend presets, species graph with/without mol, 8 string flag combinations; "
-                    "CLASH stream (un-prefixed ids, species named like reaction ids); MALFORMED streams (labels outside WfLabel in networks; hand-written and random side strings; "
+                    "CLASH stream (un-prefixed ids, species named like reaction ids); "
+                    "MOL-LABEL-SHAPES (a fixed catalyst/source network with 0-/1-based indices as int/float/numpy and with each falsy / truthy label of MOL_FALSY, MOL_TRUTHY, then random networks "
+                    "<=6 species / <=5 reactions whose labels are indices from 0 or 1 written as int / float / numpy scalars mixed within the network, falsy values 0, 0.0, '', (), False, frozenset(), "
+                    "strings printing like numbers, tuples; assign_mol or set_mol_map; 8 flag combinations with include_mol forced on in 6 + 3 prefix variants); "
+                    "SCALE-AND-WIDE-IDS (60%: 9-13 species and 11-14 reactions, i.e. beyond the random tier; coefficients from BIG_COEFFS up to 10**12; ids from IDS_WIDE: '', '0', '00', multi-digit, with a blank); "
+                    "HISTORY (random networks reached through 1-4 earlier public-API calls: every exporter/importer already used, copy(), remove_rxn, add_rxn, remove_species, assign_mol, a previous "
+                    "bipartite round trip; each query made twice and the argument checked unchanged; printed lines parsed from list / tuple / iter / generator / map); MALFORMED streams (labels outside WfLabel in networks; hand-written and random side strings; "
                     "hand-written reaction lines, with and without suffix parsing) compared on parse results only; "
                     "RAW-IMPORTER streams: random networks (<=6 species, <=5 reactions; 12% sink-/source-only for the bipartite one) exported by the real exporter with random flags "
                     "(prefixes S:/R: 60%, sp//rx/ 15%, none 15%, S:/none 10%; int ids ~30%), then 2 seeded-random degradations each (35% every dimension drawn, else 1-2 dimensions and the rest as exported) from the mode "
                     "lists BIP_RAW_MODES / SP_RAW_MODES (kind tags kept/stripped for all, species, reactions, a masked subset, or set to another value; labels, edge_id, stoich, mol "
                     "kept / stripped / renamed with or without passing the attribute-name keyword; importer prefixes as exported 70% else from a small pool; default_rule; mol_attr=None; "
                     "species graph: nodes relabelled to 1..N or n<k>, via as set/list/tuple/single id/stripped/partly stripped, rules set/single/stripped, per-reaction maps kept/stripped/"
-                    "one side/partly, legacy values kept/stripped); PARSE-INPUT-FORMS: printed lines (8 flag combinations) fed back as (line, rule) tuples, mixed, mapping, rules=, rules= of wrong "
+                    "one side/partly, legacy values kept/stripped); in both raw streams the coefficients are written as int / float / numpy.int64 / mixed per arc (all == the exported integer; the model "
+                    "gets the integer), 30% carry unselected extra attributes (nodes: weight,id,capacity,title,color; arcs: weight,label,id,name,capacity,mol), and +20% networks with typed / falsy "
+                    "molecule labels and wide ids with include_mol on; PARSE-INPUT-FORMS (argument as list / tuple / one-shot iter / generator / map): printed lines (8 flag combinations) fed back as (line, rule) tuples, mixed, mapping, rules=, rules= of wrong "
                     "length, with true / other / no / partly given rules, prefer_suffix, parse_rule_from_suffix, default_rule, through parse_rxns or rxns_to_hypergraph; LINE_FIXED x 5 explicit-rule settings.")
     ctx.nontrivial_rule = "network distinct as a JSON value (per stream) with >=1 reaction over >=2 species; side/line strings distinct and non-blank"
     build_and_audit(ctx, ["SynKitProofs.Props.C16", "SynKitProofs.ViewsRawLemmas"], "SynKitProofs/Audit/C16.lean", THEOREMS)
@@ -1353,6 +1687,10 @@ def run(ctx):
             items.append((spec, fl))
     if len(unclassified(ctx)) < 8:
         run_nets(ctx, items, "clash")
+
+    # representation / scale / history streams (round-trip claims exactly as for the random stream)
+    if len(unclassified(ctx)) < 8:
+        rep_streams(ctx)
 
     # malformed: networks whose labels are outside WfLabel (all three views; no string round-trip claim)
     items = []
